@@ -66,7 +66,7 @@ func c16Regex(c *Case) {
 	if rerr != nil {
 		// a constant pattern that does not compile is rejected by Compile
 		src := xref.Render(xref.Call{Name: "matches", Args: []xref.Expr{sl, pl}})
-		if ce, err := xpath.Compile(src); err == nil && ce != nil {
+		if ce, err := safeCompile(src); err == nil && ce != nil {
 			c.Violation("INVALID-CONSTANT-PATTERN-ACCEPTED", map[string]interface{}{"expr": src, "regexp_error": rerr.Error()})
 		} else {
 			c.Count("regex:invalid-constant-rejected")
@@ -81,7 +81,7 @@ func c16Regex(c *Case) {
 			if _, cerr := regexp.Compile(bad); cerr == nil {
 				continue
 			}
-			if ce, err := xpath.Compile(src); err == nil && ce != nil {
+			if ce, err := safeCompile(src); err == nil && ce != nil {
 				c.Violation("INVALID-CONSTANT-PATTERN-ACCEPTED", map[string]interface{}{"expr": src})
 				return
 			}
@@ -454,7 +454,7 @@ func c16Global(c *Case) {
 		if g.Chance(0.5) {
 			e = xref.Call{Name: "replace", Args: []xref.Expr{xref.Path{Steps: []*xref.Step{xgen.SelfDot()}}, xref.Str{V: p}, xref.Str{V: "<$1>"}}}
 		}
-		ce, err := xpath.Compile(xref.Render(e))
+		ce, err := safeCompile(xref.Render(e))
 		if err != nil {
 			c.Violation("VALID-PATTERN-REJECTED", map[string]interface{}{"expr": xref.Render(e), "error": err.Error()})
 			return
